@@ -731,6 +731,7 @@ def incremental_rule(ctx):
 def run(ctx):
     from . import e2e_rules as _e2e
 
+    ctx.attempt(_e2e.beam_rule, ctx, 'R4.E2')
     ctx.attempt(_e2e.solve_rule, ctx, 'R4.E1')
     from . import c05 as _c05
 
